@@ -143,7 +143,7 @@ pub fn check(j: &Job, c: &Case, l: &mut Local) -> CaseResult {
     Ok(())
 }
 
-fn jobs() -> Vec<Job> {
+pub fn jobs() -> Vec<Job> {
     let c = cat();
     let mut v = Vec::new();
     let mut seen = std::collections::HashSet::new();
